@@ -281,15 +281,17 @@ class H2Protocol:
                     )
                 else:
                     await self._create_stream(event)
-                    await self.send(Updated(idle=False))
+                    await self.send(Updated(idle=self.idle))
 
                 if self.keep_alive_requests > self.config.keep_alive_max_requests:
                     self.connection.close_connection()
             elif isinstance(event, h2.events.DataReceived):
                 try:
-                    await self.streams[event.stream_id].handle(
-                        Body(stream_id=event.stream_id, data=event.data)
-                    )
+                    stream = self.streams[event.stream_id]
+                    await stream.handle(Body(stream_id=event.stream_id, data=event.data))
+                    if stream.closed:  # Rejected, e.g. WebSocket data before acceptance
+                        await self._close_stream(event.stream_id)
+                        await self.send(Updated(idle=self.idle))
                 except KeyError:
                     # Response sent before full request received,
                     # nothing to do already closed.
@@ -407,6 +409,10 @@ class H2Protocol:
         )
         self.keep_alive_requests += 1
         await self.context.mark_request()
+        if self.streams[request.stream_id].closed:
+            # The request was rejected (and answered) without an
+            # app, e.g. an unknown server name.
+            await self._close_stream(request.stream_id)
 
     async def _create_server_push(
         self, stream_id: int, path: bytes, headers: List[Tuple[bytes, bytes]]
